@@ -2,6 +2,7 @@ import AlgoVerif.Proofs.C06BinarySim
 import AlgoVerif.Proofs.C06Patricia
 import AlgoVerif.Proofs.C06PDel3
 import AlgoVerif.Proofs.C06XP
+import AlgoVerif.Proofs.C06Fast
 /-!
 # C06 — tries are ordered string maps with prefix and pattern queries
 
@@ -237,3 +238,18 @@ example : ((Patricia.xrun (fun a b : Int => a == b) (Patricia.new, Patricia.new)
         | _ => none)
     = [none, none, none, some false, some true, some false, none, some false, none, none, some false] := by
   decide
+
+/-! ## what the driver executes is the Model
+
+The correspondence driver answers `All` on the binary trie through `Binary.xstepFast` (linear in the number of keys,
+needed for the sweeps over 65 536 and more keys; `Binary.all` appends to the list collected so far and is quadratic
+when executed).  For every state and every operation it is the step function the theorems above are about. -/
+
+theorem C06_driver_step_is_model_step {V : Type} [Inhabited V] (eqv : V → V → Bool) (s : Binary V × Binary V) (op : XOp V) :
+    Binary.xstepFast eqv s op = Binary.xstep eqv s op := Binary.xstepFast_eq eqv s op
+
+/-- the one operation on which the two differ syntactically, on a trie holding `a`, `ab`, `b` -/
+example : (Binary.xstepFast (fun a b : Int => a == b)
+      ({ size := 3, root := ((BNode.nil : BNode Int).put 97 [] 1 0).1.put 97 [98] 2 1 |>.1.put 98 [] 3 2 |>.1 }, Binary.new)
+      (.base .all)).map (fun r => match r.2 with | .base (.list l) => l | _ => [])
+    = .ok [([97], 1), ([97, 98], 2), ([98], 3)] := by decide
